@@ -4,35 +4,49 @@ C06 property theorems (all kernel-checked, no hypotheses bounding sizes, depths 
   * `lexer_indent_balanced`, `lexer_indent_stack_increasing`: invariants of the Lex state machine over every input
   * `decode_escape_spec_partial` / `_bytes` / `_raw` (+ witnesses for C06-K05/K06): literal values against the reference escape table
   * `read_operator_longest_match`
-NOT proved yet (tied by the correspondence run only): `parse_render_roundtrip`, `int_literal_value`, `reject_outside`.
+  * `parse_render_roundtrip` (+ `_at_level`, `_tokens`, `_text`): the cascade parser driven by the generated table inverts the
+    printer `Spec.render` for EVERY well-formed tree and EVERY layout (all depths; proof in RTBase/RTMain/RTForms/RTFinal)
+  * `int_literal_value`, `int_literal_illegal`: every spelling of the integer-literal grammar denotes Python's value in `readNumber`
+NOT proved yet (tied by the correspondence run only): `lex_render` (text level), `reject_outside`.
 -/
 import GPy.C06.Proofs
+import GPy.C06.RTFinal
+import GPy.C06.IntLitCtx
+import GPy.C06.RTSound
+import GPy.C06.Stmt
 namespace GPy.C06
 open Spec
 
 /-- the precedence-level table regenerated from parser/grammar.y is the Python 3.4 table (§6.15) -/
 theorem generated_table_eq_python34 : Generated.table = python34Table := by decide
 
-/-- every left-associative binary operator sits in the grammar table at exactly the row §6.15 gives it, spelled by its own token -/
+/-- every left-associative binary operator sits in the grammar table at exactly the row §6.15 gives it, spelled by its own token
+(this is the lemma through which the round-trip proof reads the left-associative rows of `Generated.table`) -/
 theorem table_binop_row (op : BinOp) (h : op ≠ .pow) :
-    ∃ ops, Generated.table[op.level]? = some (.left ops) ∧ ops.lookup op.tok = some op := by
-  cases op <;> first | exact absurd rfl h | exact ⟨_, rfl, by decide⟩
+    ∃ ops, Generated.table[op.level]? = some (.left ops) ∧ ops.lookup op.tok = some op := RT.row_binop op h
 
 /-- `**`: row 12, right operand parsed at the unary row 11 (so `-a**-b` is `-(a**(-b))`) -/
-theorem table_power_row : Generated.table[BinOp.pow.level]? = some (.power BinOp.pow.tok .pow (UnOp.level .usub)) := by decide
+theorem table_power_row : Generated.table[BinOp.pow.level]? = some (.power BinOp.pow.tok .pow (UnOp.level .usub)) := RT.row_power
 
 theorem table_unop_row (op : UnOp) :
-    ∃ ops, Generated.table[op.level]? = some (.pre ops) ∧ ops.lookup op.tok = some op := by
-  cases op <;> exact ⟨_, rfl, by decide⟩
+    ∃ ops, Generated.table[op.level]? = some (.pre ops) ∧ ops.lookup op.tok = some op := RT.row_unop op
 
-theorem table_boolop_row (op : BoolOp) : Generated.table[op.level]? = some (.nary op.tok op) := by
-  cases op <;> rfl
+theorem table_boolop_row (op : BoolOp) : Generated.table[op.level]? = some (.nary op.tok op) := RT.row_boolop op
 
 /-- every comparison operator is in the single comparison row, spelled by its one or two tokens -/
 theorem table_cmpop_row (op : CmpOp) :
     ∃ ops, Generated.table[cmpLevel]? = some (.chain ops) ∧
       ops.lookup (match op.toks with | [t] => .one t | [t, u] => .two t u | _ => .one .newline) = some op := by
   cases op <;> exact ⟨_, rfl, by decide⟩
+
+/-- the comparison row as the round-trip proof uses it: in front of any token that may start an operand of the next row
+(in particular not `not`), `comp_op` recognises exactly the operator that was printed -/
+theorem table_cmpop_match : ∃ ops, Generated.table[cmpLevel]? = some (.chain ops) ∧
+    ∀ (o : CmpOp) (u : Tok) (r : List Tok), RT.startTok 5 u = true → matchCmp ops (o.toks ++ u :: r) = some (o, u :: r) := RT.row_cmp
+
+/-- `lambda` / `if–else` is row 0 and rows 0 … 11 are not the `power` row (what the descent through the cascade uses) -/
+theorem table_ternary_row : Generated.table[0]? = some .ternary := RT.row_ternary
+theorem table_rows_below_power : ∀ j, j < 12 → ∃ L, Generated.table[j]? = some L ∧ RT.Level.isPower L = false := RT.row_below_power
 
 /-- each token continues at most one row: the rows of the table use pairwise distinct operator tokens -/
 theorem table_binop_tokens_distinct (a b : BinOp) (h : a.tok = b.tok) : a = b := by
@@ -126,5 +140,113 @@ theorem read_operator_longest_match (line : List Char) (p : P) (rest : List Char
 
 example : readOperator ['*', '*', '=', 'x'] = some (.starstareq, ['x']) := by decide
 example : readOperator ['*', '*', ' ', 'x'] = some (.starstar, [' ', 'x']) := by decide
+
+/-! ### the parse / print round trip of the expression cascade -/
+
+/-- **parse_render_roundtrip**.  For EVERY tree `e` of the modelled expression fragment that the grammar can produce
+(`WF`: a BoolOp has ≥ 2 operands, a Compare ≥ 1 comparator) and EVERY layout `ℓ` (any number of redundant parentheses at
+every node, trailing commas in every call / display), parsing the token spelling `render ℓ e` as `eval_input`
+(followed by any number of NEWLINE tokens and ENDMARKER) yields exactly `e`.  No bound on depth, width or fuel:
+the fuel `parseEvalToks` supplies is shown sufficient. -/
+theorem parse_render_roundtrip (e : Expr) (hwf : WF e = true) (ℓ : Layout) (nl : Nat) :
+    parseEvalToks (.start .eval :: (render ℓ e ++ (List.replicate nl .newline ++ [.endmarker]))) = some e :=
+  RT.roundtrip_evalToks e hwf ℓ nl
+
+/-- the general form: at every level `k` of the cascade, in front of every continuation `rest` that cannot extend an
+operand of level `k` (`RT.Follow`), with every fuel ≥ 16·|tokens| + 14 − k, the parser returns the tree and leaves `rest`.
+Precedence, associativity (left rows, right-associative `**` with its unary right operand), n-ary flattening of
+`and`/`or`, comparison chains incl. the two-token operators, conditional / lambda, trailers, displays are all covered. -/
+theorem parse_render_roundtrip_at_level (e : Expr) (hwf : WF e = true) (ℓ : Layout) (p : List Nat) (k : Nat) (hk : k ≤ 12)
+    (rest : List Tok) (hf : RT.Follow k rest) (n : Nat) (hn : 16 * (rAt ℓ p k e).length + (14 - k) ≤ n) :
+    parseAt Generated.table n k (rAt ℓ p k e ++ rest) = some (e, rest) :=
+  RT.roundtrip_parseAt e hwf ℓ p k hk rest hf n hn
+
+theorem parse_render_roundtrip_tokens (e : Expr) (hwf : WF e = true) (ℓ : Layout) (n : Nat)
+    (hn : 16 * (render ℓ e).length + 14 ≤ n) : parseExpr n (render ℓ e) = some e :=
+  RT.roundtrip_parseExpr e hwf ℓ n hn
+
+/-- consequence: no token spelling is shared by two different trees - whatever the layouts, equal spellings mean equal trees
+(so the parser cannot return "some other tree" for a legal spelling, and the printer is unambiguous) -/
+theorem render_unambiguous (e e' : Expr) (hwf : WF e = true) (hwf' : WF e' = true) (ℓ ℓ' : Layout)
+    (h : render ℓ e = render ℓ' e') : e = e' := by
+  have h1 := parse_render_roundtrip_tokens e hwf ℓ (16 * (render ℓ e).length + 14) (Nat.le_refl _)
+  have h2 := parse_render_roundtrip_tokens e' hwf' ℓ' (16 * (render ℓ' e').length + 14) (Nat.le_refl _)
+  rw [h, h2] at h1
+  exact (Option.some.inj h1).symm
+
+/-- text level, modulo the (not yet proved) `lex_render`: ANY text whose token stream is a rendering of `e` parses to `e` -/
+theorem parse_render_roundtrip_text (text : List Char) (e : Expr) (hwf : WF e = true) (ℓ : Layout) (nl : Nat)
+    (hlex : lexString text .eval = .ok (.start .eval :: (render ℓ e ++ (List.replicate nl .newline ++ [.endmarker])))) :
+    ∃ e', parseEvalString text = .ok e' ∧ e' = e := by
+  unfold parseEvalString
+  rw [hlex]
+  simp only [parse_render_roundtrip e hwf ℓ nl]
+  exact ⟨e, rfl, rfl⟩
+
+/-- the converse inclusion for `WF`: every tree the cascade parser yields - any fuel, level, token list (and any table) - is well
+formed, so the hypothesis `WF e` of the round-trip theorems is exactly "`e` is in the range of the modelled grammar" -/
+theorem parser_yields_wellformed (n k : Nat) (ts : List Tok) (e : Expr) (r : List Tok)
+    (h : parseAt Generated.table n k ts = some (e, r)) : WF e = true := RT.parseAt_wf _ n k ts e r h
+
+/-- non-vacuity: `-a ** -b < c is not (not d)` and `f(x,)[i].y if not p else lambda u, v: (u, v)` are well formed;
+the second instance also shows the hypotheses of the level form are satisfiable at a non-trivial point -/
+example : WF (.cmp (.un .usub (.bin .pow (.name "a") (.un .usub (.name "b")))) [(.lt, .name "c"), (.isnot, .un .not (.name "d"))]) = true := by decide
+example : WF (.ifexp (.un .not (.name "p")) (.attr (.sub (.call (.name "f") [.name "x"]) (.name "i")) "y")
+    (.lambda ["u", "v"] (.tuple [.name "u", .name "v"]))) = true := by decide
+example : RT.Follow 10 [.p .plus, .name "z"] := by show RT.stopTok 10 (.p .plus) = true; decide
+example : parseEvalToks (.start .eval :: (render ⟨fun _ => 1, fun _ => true⟩ (.bin .sub (.name "a") (.bin .sub (.name "b") (.name "c"))) ++ [.newline, .endmarker]))
+    = some (.bin .sub (.name "a") (.bin .sub (.name "b") (.name "c"))) := parse_render_roundtrip _ (by decide) _ 1
+
+/-! ### integer literals -/
+
+/-- **int_literal_value**: every spelling `s` of the integer-literal grammar of §2.4.4 (decimal, `0x`/`0X`, `0o`/`0O`, `0b`/`0B`,
+any number of leading zeros after the prefix, `0`+) is read by `readNumber` as ONE token with exactly the value Python defines,
+consuming the whole spelling.  For every `s` and `n`, no length bound. -/
+theorem int_literal_value (s : List Char) (n : Nat) (h : Spec.intLit s = .value n) : readNumber s = .ok (.int n) [] :=
+  intLit_value_readNumber s n h
+
+/-- digit strings with a leading zero that are not all zeros (`0777`) are outside the grammar and rejected -/
+theorem int_literal_illegal (s : List Char) (h : Spec.intLit s = .illegal) : readNumber s = .bad :=
+  intLit_illegal_readNumber s h
+
+/-- the same in context: followed by any text `rest` whose first character cannot continue a number or identifier
+(operator, bracket, blank, newline, end of line; `stopChar`), the spelling lexes to the same single token and leaves exactly `rest` -/
+theorem int_literal_value_in_context (s rest : List Char) (n : Nat) (h : Spec.intLit s = .value n)
+    (hr : ∀ c r, rest = c :: r → stopChar c = true) : readNumber (s ++ rest) = .ok (.int n) rest :=
+  intLit_value_readNumber_ctx s rest n h hr
+
+theorem int_literal_illegal_in_context (s rest : List Char) (h : Spec.intLit s = .illegal)
+    (hr : ∀ c r, rest = c :: r → stopChar c = true) : readNumber (s ++ rest) = .bad :=
+  intLit_illegal_readNumber_ctx s rest h hr
+
+example : stopChar '+' = true ∧ stopChar ')' = true ∧ stopChar ' ' = true ∧ stopChar 'e' = false := by decide
+
+/-- conversely the lexer's "illegal decimal with leading zero" fires on a digit string only where the reference says illegal -/
+theorem int_literal_bad_only_illegal (s : List Char) (hne : s ≠ []) (hall : s.all isDigit = true)
+    (hb : s.head? = some '0' ∧ s.any (fun c => c != '0') = true) : Spec.intLit s = .illegal :=
+  readNumber_bad_digits s hne hall hb
+
+example : Spec.intLit "0x1F".toList = .value 31 := by decide
+example : Spec.intLit "0777".toList = .illegal := by decide
+
+/-! ### the statement grammar (GPy.C06.Stmt): regression anchors of the repaired defects
+
+No general theorem is proved about the statement parser; these are evaluations (kernel `decide`) at the recorded witnesses:
+with the repaired check on (the code as it is) the text is rejected, with the check switched off (the code before the fix)
+it was accepted. -/
+
+/-- `(a, b) += 1` (was C06-K01, fix cbae5b7) -/
+def k01Toks : List Tok := [.start .exec, .p .lpar, .name "a", .p .comma, .name "b", .p .rpar, .p .pluseq, .num (.int 1), .newline, .endmarker]
+/-- `try:` NEWLINE INDENT `pass` NEWLINE DEDENT (was C06-K02, fix 787d2c3) -/
+def k02Toks : List Tok := [.start .exec, .k .try_, .p .colon, .newline, .indent, .k .pass_, .newline, .dedent, .endmarker]
+/-- `def f(*): pass` (was C06-K03, fix 05ee8d3) -/
+def k03Toks : List Tok := [.start .exec, .k .def_, .name "f", .p .lpar, .p .star, .p .rpar, .p .colon, .k .pass_, .newline, .endmarker]
+
+theorem stmt_augassign_display_rejected :
+    (parseFileToks k01Toks).isNone = true ∧ (parseFileToksWith { augTarget := false } k01Toks).isSome = true := by decide +kernel
+theorem stmt_try_without_handler_rejected :
+    (parseFileToks k02Toks).isNone = true ∧ (parseFileToksWith { tryHandlers := false } k02Toks).isSome = true := by decide +kernel
+theorem stmt_bare_star_rejected :
+    (parseFileToks k03Toks).isNone = true ∧ (parseFileToksWith { bareStar := false } k03Toks).isSome = true := by decide +kernel
 
 end GPy.C06
